@@ -104,11 +104,18 @@ Definition commit_window (c : ucase) : bool :=
     The model takes the same action, lets the server's own steps run to completion, and must show
     the same outputs: the poll response that completed (if any), the frames that came out of the
     websocket, everything delivered to the server application so far, the server's transport. *)
-Inductive act := ASend | AGet | ADial | APing | AUpg | AWsMsg | APost.
+(** [AGetHold]: a GET that the rig holds at the yield point of pollQueue.poll (after its first,
+    empty, get() and before its wait) until [ARelease]: in the model the poller is parked / woken
+    but its wake-up processing ([GetWake]) does not run while it is held. *)
+Inductive act := ASend | AGet | ADial | APing | AUpg | AWsMsg | APost | AGetHold | ARelease.
 
 Definition server_closure : list label :=
   [SAccept; PostDeliver 0; PostOk; SRecvWs; SNoopGo; SDiscGo; GetArrive; GetRoute; GetFirst; GetWake].
 Definition settle (st : state) : state := run (server_closure ++ server_closure ++ server_closure) st.
+Definition server_closure_held : list label :=
+  [SAccept; PostDeliver 0; PostOk; SRecvWs; SNoopGo; SDiscGo; GetArrive; GetRoute; GetFirst].
+Definition settle_held (st : state) : state :=
+  run (server_closure_held ++ server_closure_held ++ server_closure_held) st.
 
 Definition inj (p : pkt) (st : state) : state :=
   match k_ws st with WOpen => set_k_cs (k_cs st ++ [p]) st | _ => st end.
@@ -116,7 +123,8 @@ Definition inj (p : pkt) (st : state) : state :=
 Definition do_act (a : act) (st : state) : state :=
   match a with
   | ASend => step_skip st SSend
-  | AGet => (* the raw peer's GET: one at a time, not bound to the model client's poll loop *)
+  | ARelease => st
+  | AGet | AGetHold => (* the raw peer's GET: one at a time, not bound to the model client's poll loop *)
             match c_loop st with LFlight => st | _ => set_c_loop LFlight (set_k_req true st) end
   | ADial => step_skip st CDial
   | APing => inj Ping st
@@ -136,11 +144,16 @@ Definition observe (st : state) : fobs * state :=
   let st1 := match k_resp st with RNone => st | _ => set_k_resp RNone (set_c_loop LIdle st) end in
   ((r, map code (k_sc st), s_recv st, s_ws st), set_k_sc [] st1).
 
-Fixpoint frun (acts : list act) (st : state) : list fobs :=
+Fixpoint frun_h (held : bool) (acts : list act) (st : state) : list fobs :=
   match acts with
   | [] => []
-  | a :: r => let '(o, st') := observe (settle (do_act a st)) in o :: frun r st'
+  | a :: r =>
+      let held' := match a with AGetHold => true | ARelease => false | _ => held end in
+      let st1 := do_act a st in
+      let '(o, st') := observe (if held' then settle_held st1 else settle st1) in
+      o :: frun_h held' r st'
   end.
+Definition frun (acts : list act) (st : state) : list fobs := frun_h false acts st.
 
 (** what the rig waits for at each step: (poll response?, #frames, #deliveries so far, on websocket?) *)
 Definition fexpect (acts : list act) : list (list nat) :=
